@@ -55,6 +55,21 @@ def _check_main(run, P):
     _ids(run, P)
     _agree(run, P)
     _phases(run, P)
+    # the read sets clash detection works on, and the rebuilding of mapped fields
+    # (shared with C08.mapper / C08.ident)
+    from . import c08 as _c08
+    for r_ in ("C08.mapper", "C08.ident"):
+        run.rule_docs.setdefault(r_, "")
+        run.minimum.setdefault(r_, 0)
+    n1_ = len(run.obs)
+    _c08._mapper_config(run, P)
+    _c08._ident(run, P, sm.statement_classes(P))
+    for o_ in run.obs[n1_:]:
+        if o_.rule in ("C08.mapper", "C08.ident"):
+            o_.rule = "C16.fields"
+    for r_ in ("C08.mapper", "C08.ident"):
+        run.rule_docs.pop(r_, None)
+        run.minimum.pop(r_, None)
     # what the default predicate protects (shared with C13.storage)
     from . import c13
     for r_ in ("C13.storage", "C01.persist"):
